@@ -191,11 +191,11 @@ def check_C18(res, tier, seed, replay):
                 pure.append('GCD %s %d %d' % (T, rng.randint(-30000, 30000), rng.randint(-30000, 30000)))
             PM = 40 if tier == 'quick' else 60
             for p in range(2, PM + 1):
-                for a in range(0, p + 3):
+                for a in range(-p - 2, p + 3):
                     pure.append('INV %s %d %d' % (T, a, p))
             for _ in range(200 if tier == 'quick' else 2000):
                 p = rng.randint(2, 30000)
-                pure.append('INV %s %d %d' % (T, rng.randint(1, 30000), p))
+                pure.append('INV %s %d %d' % (T, rng.randint(1, 30000) * rng.choice([1, 1, -1]), p))
             for p in range(2, 700 if tier == 'quick' else 2500):
                 pure.append('PRIME %s %d' % (T, p))
             for _ in range(100 if tier == 'quick' else 1000):
